@@ -157,8 +157,11 @@ class Gate(dict):
         if any(ds[k] != do[k] for k in ds if k not in ignore_list):
             return False
 
-        parameter = round(ds["parameter"] % (2 * pi), 7) if isinstance(ds["parameter"], (float, int)) else ds["parameter"]
-        other_parameter = round(do["parameter"] % (2 * pi), 7) if isinstance(do["parameter"], (float, int)) else do["parameter"]
+        # Controlled rotations only come back to themselves after 4*pi (a rotation by 2*pi is -1, which is not a
+        # global phase any more once it is controlled).
+        period = 4 * pi if ds["name"] in {"CRX", "CRY", "CRZ"} else 2 * pi
+        parameter = round(ds["parameter"] % period, 7) if isinstance(ds["parameter"], (float, int)) else ds["parameter"]
+        other_parameter = round(do["parameter"] % period, 7) if isinstance(do["parameter"], (float, int)) else do["parameter"]
 
         return parameter == other_parameter
 
